@@ -244,6 +244,18 @@ for mode, label in (("NUMBER_FRACTION", "number"), ("MASS_FRACTION", "mass")):
                     m = b.new(MAT, " ".join(f"{p} <{s}>" for s, p in zip(mix, lit)), natural=nat, norm_type=norm)
                     return dict(args=[m], kwargs=dict(quantity=False), env=dict(ps=[float(p) for p in lit], ms=[_mass(s, nat) for s in mix], keys=list(mix)))
                 c.scenario("text:" + "+".join(mix) + ("" if nat else "[most-abundant-isotopes]"), pre_s)
+        # two materials written with the same text are two materials: extending one of them does not touch the other, nor one built afterwards
+        for mix, lit in STRING_MIXES[:2]:
+            for which in ("first", "built-afterwards"):
+                def pre_t(b, mix=mix, lit=lit, which=which):
+                    norm = b.getattr(b.cls(NORM), mode)
+                    text = " ".join(f"{p} <{s}>" for s, p in zip(mix, lit))
+                    m1 = b.new(MAT, text, norm_type=norm)
+                    m2 = b.new(MAT, text, norm_type=norm)
+                    b.call(b.getattr(m2, "add"), mix[0], b.real("extra"))
+                    m3 = b.new(MAT, text, norm_type=norm)
+                    return dict(args=[m1 if which == "first" else m3], kwargs=dict(quantity=False), env=dict(ps=[float(p) for p in lit], ms=[_mass(s, True) for s in mix], keys=list(mix)))
+                c.scenario("text:" + "+".join(mix) + f"[{which}-while-a-twin-from-the-same-text-was-extended]", pre_t)
         c.requires("all([p > 0 for p in ps])")
         if mode == "NUMBER_FRACTION":
             c.ensures("all([near(frac(result, k, 'x'), 100 * p / sum(ps)) for k, p in zip(keys, ps)])", "x-proportional-to-the-amount")
@@ -441,6 +453,15 @@ def _(c):
                 return dict(args=[s, key, p], env=dict(x=x, p=p, given=given, m0=_mass(text) * DA_G, mk=M.species(key)[0] * DA_G, twin=twin, c0=dict(M.expand_text(text)), key=key,
                                                        names=list(M.expand_text(text)) + ([key] if key not in M.expand_text(text) else [])))
             c.scenario(f"{text} {given} add {key}", pre)
+        # the mass density attached to an existing substance (a public attribute), which is then extended
+        def pre_late(b, text=text, key=key):
+            x, p = b.real("x"), b.real("p")
+            twin = b.new(SUB, text, mass_density=b.new(QTY, x, "g/cm3"))
+            s = b.new(SUB, text)
+            b.setattr(s, "mass_density", b.new(QTY, x, "g/cm3"))
+            return dict(args=[s, key, p], env=dict(x=x, p=p, given="rho", m0=_mass(text) * DA_G, mk=M.species(key)[0] * DA_G, twin=twin, c0=dict(M.expand_text(text)), key=key,
+                                                   names=list(M.expand_text(text)) + ([key] if key not in M.expand_text(text) else [])))
+        c.scenario(f"{text} rho attached afterwards add {key}", pre_late)
     c.requires("x > 0 and p > 0")
     c.ensures("near(self.mass_density.value('g/cm3'), x if given == 'rho' else x * (m0 + p * mk))", "mass-density-is-n-times-the-new-formula-mass")
     c.ensures("near(self.number_density.value('cm-3'), x / (m0 + p * mk) if given == 'rho' else x)", "number-density-is-rho-over-the-new-formula-mass")
